@@ -106,6 +106,9 @@ const (
 	lsqBlockNo
 	lsqEpochNo
 	lsqDeposits
+	lsqEraHistory
+	lsqSystemStart
+	lsqChainPoint
 	ltmAcquire
 	ltmRelease
 	ltmHasTx
@@ -116,13 +119,13 @@ const (
 )
 
 var kindName = [...]string{"lsq.AcquireVolatileTip", "lsq.AcquireImmutableTip", "lsq.Acquire(point)", "lsq.Release", "lsq.GetChainBlockNo",
-	"lsq.GetEpochNo", "lsq.GetStakeDelegDeposits", "ltm.Acquire", "ltm.Release", "ltm.HasTx", "ltm.NextTx", "ltm.GetSizes", "lts.SubmitTx", "ps.GetPeers"}
+	"lsq.GetEpochNo", "lsq.GetStakeDelegDeposits", "lsq.GetEraHistory", "lsq.GetSystemStart", "lsq.GetChainPoint", "ltm.Acquire", "ltm.Release", "ltm.HasTx", "ltm.NextTx", "ltm.GetSizes", "lts.SubmitTx", "ps.GetPeers"}
 
 func (k opKind) String() string { return kindName[k] }
 
 func protoOf(k opKind) uint16 {
 	switch {
-	case k <= lsqDeposits:
+	case k <= lsqChainPoint:
 		return protoLSQ
 	case k <= ltmSizes:
 		return protoLTM
@@ -488,13 +491,29 @@ func (s *server) handleLSQ(tag uint64, m *cborx.Node, raw []byte) ([]*cborx.Node
 			return []*cborx.Node{cborx.A(cborx.U(localstatequery.MessageTypeResult), n)}, true
 		}
 		q0, _ := u(q.At(0))
+		s.count("srv.lsq.queries")
+		plain := lsqValue(st.Tag, 0, st.Epoch, st.K)
 		switch {
+		case q != nil && len(q.Items) == 1 && q0 == localstatequery.QueryTypeSystemStart:
+			s.count("srv.lsq.query.system_start")
+			return res(cborx.A(cborx.U(2017), cborx.U(plain), cborx.U(0)))
+		case q != nil && len(q.Items) == 1 && q0 == localstatequery.QueryTypeChainPoint:
+			s.count("srv.lsq.query.chain_point")
+			return res(cborx.A(cborx.U(plain), cborx.B(argBytes(plain, 32))))
 		case q != nil && len(q.Items) == 1 && q0 == localstatequery.QueryTypeChainBlockNo:
 			s.count("srv.lsq.query.block_no")
 			return res(cborx.A(cborx.U(1), cborx.U(lsqValue(st.Tag, 0, st.Epoch, st.K))))
 		case q != nil && len(q.Items) == 2 && q0 == localstatequery.QueryTypeBlock:
 			b0, _ := u(q.At(1, 0))
 			if b0 == localstatequery.QueryTypeHardFork {
+				if hf, _ := u(q.At(1, 1, 0)); hf == localstatequery.QueryTypeHardForkEraHistory {
+					// one era: [begin, end, params], the tag is the end slot
+					s.count("srv.lsq.query.era_history")
+					return res(cborx.A(cborx.A(
+						cborx.A(cborx.U(0), cborx.U(0), cborx.U(0)),
+						cborx.A(cborx.U(0), cborx.U(plain), cborx.U(uint64(st.K))),
+						cborx.A(cborx.U(432000), cborx.U(1000), cborx.A(cborx.U(0), cborx.U(129600), cborx.A()), cborx.U(0)))))
+				}
 				s.count("srv.lsq.query.current_era")
 				return res(cborx.U(uint64(lsqEra(st.K))))
 			}
@@ -553,6 +572,7 @@ func (s *server) handleLTM(tag uint64, m *cborx.Node, raw []byte) ([]*cborx.Node
 		need()
 		st.K++
 		s.count("srv.ltm.has_tx")
+		s.count("srv.ltm.queries")
 		var id []byte
 		if n := m.At(1); n != nil {
 			id = n.StringData()
@@ -563,6 +583,7 @@ func (s *server) handleLTM(tag uint64, m *cborx.Node, raw []byte) ([]*cborx.Node
 		need()
 		st.K++
 		s.count("srv.ltm.next_tx")
+		s.count("srv.ltm.queries")
 		if st.Cursor >= 3 {
 			return []*cborx.Node{cborx.A(cborx.U(localtxmonitor.MessageTypeReplyNextTx))}, true
 		}
@@ -576,6 +597,7 @@ func (s *server) handleLTM(tag uint64, m *cborx.Node, raw []byte) ([]*cborx.Node
 		need()
 		st.K++
 		s.count("srv.ltm.get_sizes")
+		s.count("srv.ltm.queries")
 		return []*cborx.Node{cborx.A(cborx.U(localtxmonitor.MessageTypeReplyGetSizes),
 			cborx.A(cborx.U(uint64(st.Epoch&0xfff|st.Has<<12)), cborx.U(uint64(st.Cursor)), cborx.U(uint64(st.K))))}, true
 	}
@@ -612,7 +634,7 @@ func lsqStep(state, inp, outp interface{}) []interface{} {
 	s, in, out := state.(lsqState), inp.(input), outp.(output)
 	nq := uint32(0) // queries the call sends
 	switch in.Kind {
-	case lsqBlockNo:
+	case lsqBlockNo, lsqEraHistory, lsqSystemStart, lsqChainPoint:
 		nq = 1
 	case lsqEpochNo, lsqDeposits:
 		nq = 2
@@ -797,7 +819,7 @@ func psStep(state, inp, outp interface{}) []interface{} {
 
 func describeOp(in, out interface{}) string {
 	i, o := in.(input), out.(output)
-	if (i.Kind == lsqBlockNo || i.Kind == lsqEpochNo || i.Kind == lsqDeposits) && o.St == stOK {
+	if i.Kind >= lsqBlockNo && i.Kind <= lsqChainPoint && o.St == stOK {
 		ftag, era, e, k := lsqUnpack(o.A)
 		re := ""
 		if ftag&4 != 0 {
@@ -910,6 +932,30 @@ func (cl *clients) exec1(in input) output {
 			return acq(err)
 		}
 		return output{A: uint64(v)}
+	case lsqEraHistory:
+		h, err := cl.lsq.GetEraHistory()
+		if err != nil {
+			return acq(err)
+		}
+		if len(h) != 1 {
+			return output{A: ^uint64(0)}
+		}
+		return output{A: uint64(h[0].End.SlotNo)}
+	case lsqSystemStart:
+		ss, err := cl.lsq.GetSystemStart()
+		if err != nil {
+			return acq(err)
+		}
+		return output{A: uint64(ss.Day)}
+	case lsqChainPoint:
+		pt, err := cl.lsq.GetChainPoint()
+		if err != nil {
+			return acq(err)
+		}
+		if string(pt.Hash) != string(argBytes(pt.Slot, 32)) {
+			return output{A: ^uint64(0)}
+		}
+		return output{A: pt.Slot}
 	case lsqDeposits:
 		var cred localstatequery.StakeCredential
 		copy(cred.Bytes[:], argBytes(in.Arg, 28))
@@ -1020,6 +1066,7 @@ type casePlan struct {
 	Ops       [][]planOp // per goroutine
 	KillAfter int
 	Slow      bool
+	Repeat    string // query kind of the repetition block, if any
 }
 
 var caseKinds = []string{"lsq", "ltm", "lts", "ps", "ntc-mixed", "lsq", "ltm", "ps"}
@@ -1029,10 +1076,16 @@ func genOp(r *core.Rand, id uint16, g, seq int, salt uint64) input {
 	switch id {
 	case protoLSQ:
 		switch x := r.Intn(100); {
-		case x < 22:
+		case x < 10:
 			return input{lsqBlockNo, 0}
-		case x < 35:
+		case x < 20:
 			return input{lsqEpochNo, 0}
+		case x < 30:
+			return input{lsqEraHistory, 0}
+		case x < 38:
+			return input{lsqSystemStart, 0}
+		case x < 46:
+			return input{lsqChainPoint, 0}
 		case x < 62:
 			return input{lsqDeposits, arg}
 		case x < 74:
@@ -1091,6 +1144,33 @@ func genCase(r *core.Rand, i int) *casePlan {
 	perProto := map[uint16]int{}
 	p.Ops = make([][]planOp, p.G)
 	seq := 0
+	// Repetition block (half of the cases with local-state-query): goroutine 0
+	// issues the SAME query kind twice within one acquisition, again after a
+	// re-acquire, and again after release + (implicit) acquire. Every answer
+	// carries the sequence number of the query it answers, so an answer that is
+	// served without a query of its own (a cached earlier reply) shows up.
+	for _, id := range p.Protos {
+		if id != protoLSQ || !r.Bool() {
+			continue
+		}
+		k := lsqBlockNo + opKind(r.Intn(int(lsqChainPoint-lsqBlockNo)+1))
+		q := func() planOp {
+			seq++
+			in := input{Kind: k}
+			if k == lsqDeposits {
+				in.Arg = salt<<24 | uint64(seq)
+			}
+			return planOp{In: in}
+		}
+		re := input{Kind: core.Pick(r, []opKind{lsqAcqVolatile, lsqAcqImmutable, lsqAcqPoint})}
+		if re.Kind == lsqAcqPoint {
+			seq++
+			re.Arg = (salt<<24 | uint64(seq)) << 2
+		}
+		p.Ops[0] = append(p.Ops[0], q(), q(), planOp{In: re}, q(), planOp{In: input{lsqRelease, 0}, AfterOK: true}, q())
+		perProto[id] += 6
+		p.Repeat = k.String()
+	}
 	for n := 0; n < total; n++ {
 		g := r.Intn(p.G)
 		id := p.Protos[r.Intn(len(p.Protos))]
@@ -1328,8 +1408,13 @@ func runCase(c *core.Ctx, i int, r *core.Rand) {
 	recMu.Unlock()
 	c.Count("calls_still_blocked_after_the_connection_was_cut", blocked)
 	srv.mu.Lock()
+	seenByServer := map[string]int{}
 	for k, n := range srv.seen {
 		c.Count(k, n)
+		seenByServer[k] = n
+	}
+	if plan.Repeat != "" {
+		c.Count("cases_with_repetition_block."+plan.Repeat, 1)
 	}
 	oddities := append([]string(nil), srv.oddity...)
 	reacqKO := srv.reacqKO
@@ -1349,11 +1434,49 @@ func runCase(c *core.Ctx, i int, r *core.Rand) {
 	for _, id := range plan.Protos {
 		ops := byProto[id]
 		sort.Slice(ops, func(x, y int) bool { return ops[x].Call < ops[y].Call })
-		judge(c, i, plan, id, ops, end, oddities)
+		seen := -1
+		if finished {
+			seen = seenByServer[requestCounter[id]]
+		}
+		judge(c, i, plan, id, ops, end, oddities, seen)
 	}
 }
 
-func judge(c *core.Ctx, i int, plan *casePlan, id uint16, ops []*rec, end int64, oddities []string) {
+// seqOf: the server-side sequence number an answer carries, if it carries one.
+func seqOf(in input, out output) (uint64, bool) {
+	if out.St != stOK {
+		return 0, false
+	}
+	switch {
+	case in.Kind >= lsqBlockNo && in.Kind <= lsqChainPoint:
+		_, _, _, k := lsqUnpack(out.A)
+		return uint64(k), out.A != ^uint64(0)
+	case in.Kind == ltmNextTx && !out.Empty, in.Kind == ltmSizes:
+		return out.C, true
+	case in.Kind == ltsSubmit && out.A == 0:
+		return out.C, true
+	case in.Kind == psGetPeers && in.Arg > 0:
+		return out.C, true
+	}
+	return 0, false
+}
+
+// requestsOf: how many requests of the counted class an answered call sends.
+func requestsOf(k opKind) int {
+	switch k {
+	case lsqBlockNo, lsqEraHistory, lsqSystemStart, lsqChainPoint, ltmHasTx, ltmNextTx, ltmSizes, ltsSubmit, psGetPeers:
+		return 1
+	case lsqEpochNo, lsqDeposits:
+		return 2
+	}
+	return 0
+}
+
+var requestCounter = map[uint16]string{protoLSQ: "srv.lsq.queries", protoLTM: "srv.ltm.queries", protoLTS: "srv.lts.SubmitTx", protoPS: "srv.ps.ShareRequest"}
+
+// judge: requestsSeen is the number of query-class requests the server read
+// for this protocol instance, or -1 when it is not known (server still running).
+func judge(c *core.Ctx, i int, plan *casePlan, id uint16, ops []*rec, end int64, oddities []string, requestsSeen int) {
 	c.Eval()
 	name := protoName[id]
 	if len(ops) == 0 {
@@ -1377,6 +1500,8 @@ func judge(c *core.Ctx, i int, plan *casePlan, id uint16, ops []*rec, end int64,
 		}
 	}
 	trimmed := 0
+	reused, expectedRequests := 0, 0
+	seqSeen := map[uint64]bool{}
 	for _, rc := range ops {
 		ret := rc.Return
 		if rc.Out.St == stNoAnswer {
@@ -1387,6 +1512,15 @@ func judge(c *core.Ctx, i int, plan *casePlan, id uint16, ops []*rec, end int64,
 		}
 		if tagMismatch(rc.In, rc.Out) {
 			mism++
+		}
+		if q, ok := seqOf(rc.In, rc.Out); ok {
+			if seqSeen[q] {
+				reused++
+			}
+			seqSeen[q] = true
+		}
+		if rc.Out.St != stNoAnswer {
+			expectedRequests += requestsOf(rc.In.Kind)
 		}
 		if rc.Out.St == stNoAnswer && rc.Call > lastAnswer {
 			trimmed++
@@ -1458,9 +1592,20 @@ func judge(c *core.Ctx, i int, plan *casePlan, id uint16, ops []*rec, end int64,
 	}
 	var res porcupine.CheckResult
 	var info porcupine.LinearizationInfo
-	if mism > 0 {
-		// an answer that names another request is refused by the model in every
-		// state: no linearization exists
+	// Every answered call puts requests of its own on the wire; when all calls
+	// were answered the server must have read at least that many.
+	notSent := 0
+	if requestsSeen >= 0 && noAnswer == 0 {
+		c.Count("histories_with_request_count_compared", 1)
+		if requestsSeen < expectedRequests {
+			notSent = expectedRequests - requestsSeen
+		}
+	}
+	if mism > 0 || reused > 0 || notSent > 0 {
+		// an answer that names another request, or the sequence number of a
+		// request that another call's answer already carries, is refused by the
+		// model in every state, and so is an answer without a request: no
+		// linearization exists
 		res = porcupine.Illegal
 		c.Count("histories_refused_by_tag_check", 1)
 	} else {
@@ -1506,11 +1651,14 @@ func judge(c *core.Ctx, i int, plan *casePlan, id uint16, ops []*rec, end int64,
 		c.Inconclusive(fmt.Sprintf("case %d %s: porcupine did not finish within 60 s (%d calls)", i, name, len(ops)))
 	case porcupine.Illegal:
 		class := "answer-out-of-order"
-		if mism > 0 {
+		switch {
+		case mism > 0:
 			class = "answer-of-another-request"
+		case reused > 0 || notSent > 0:
+			class = "answer-reused-without-a-request"
 		}
 		longest := -1
-		if mism == 0 {
+		if mism == 0 && reused == 0 && notSent == 0 {
 			longest = 0
 			for _, part := range info.PartialLinearizations() {
 				for _, lin := range part {
@@ -1526,14 +1674,15 @@ func judge(c *core.Ctx, i int, plan *casePlan, id uint16, ops []*rec, end int64,
 				bad = append(bad, fmt.Sprintf("g%d [%d,%d] %s", rc.G, rc.Call, rc.Return, describeOp(rc.In, rc.Out)))
 			}
 		}
-		what := fmt.Sprintf("%s: the history of %d calls from %d goroutines is not linearizable against the tagging server (longest linearizable subset found by the checker: %d calls, -1 = checker not needed; %d answers name another request)",
-			name, len(ops), plan.G, longest, mism)
+		what := fmt.Sprintf("%s: the history of %d calls from %d goroutines is not linearizable against the tagging server (longest linearizable subset found by the checker: %d calls, -1 = checker not needed; %d answers name another request, %d answers repeat the sequence number of an earlier answer, %d requests fewer than the answered calls need were read by the server)",
+			name, len(ops), plan.G, longest, mism, reused, notSent)
 		if len(bad) > 0 {
 			what += "; e.g. " + bad[0]
 		}
 		c.Violation("C25:"+name+":not-linearizable:"+class, what, map[string]any{
 			"case": i, "kind": plan.Kind, "protocol": name, "goroutines": plan.G, "connection_lost_after_requests": plan.KillAfter,
 			"delayed_replies": plan.Slow, "history": listing(), "mismatching_answers": bad, "longest_linearizable_prefix": longest,
+			"answers_repeating_a_sequence_number": reused, "requests_missing_at_the_server": notSent,
 			"server_oddities": oddities,
 			"reading": "g<goroutine> [call stamp, return stamp] call -> answer; lsq results name the acquire flavour (and point) the server was serving, its epoch, the era and the query count; ltm NextTx (epoch,cursor,count), GetSizes (epoch|hash(last HasTx id)<<12,cursor,count); lts reject (hash(tx,era),count); ps (n,tag,count)",
 		})
